@@ -70,6 +70,80 @@ def save_corpus(wd, variant="asan", extra_opts=(), audits=None):
     return {name: open("%s/%s.yarc" % (wd, name), "rb").read() for name, _ in CORPUS}
 
 
+def failing_saves(res, tier, wd, images, r):
+    """ArenaSave.tla on the implementation: the stream fails at its k-th write, for every k (sampled for long relocation lists);
+    the call must report the failure and the ORIGINAL rules must be intact (relocation audit, same scan results)"""
+    m = yv.tlc("ArenaSave", "MC_ArenaSave.cfg", wd, timeout=600)
+    if not m["violated"]:
+        yv.require_tlc_ok(m, "MC_ArenaSave.cfg")
+    res.add_tlc("arenasave", m)
+    if m["violated"]:
+        res.violation("TLC: %s in MC_ArenaSave.cfg" % m["violated"], yv.save_replay("C08", "model_arenasave", {"tlc": m["out"][-3000:]}))
+    v = yv.tlc("ArenaSave", "MC_ArenaSave_D43.cfg", wd, timeout=300, coverage=False)
+    if not (v["violated"] and "OriginalIntact" in v["violated"]):
+        raise yv.Broken("non-vacuity run MC_ArenaSave_D43.cfg did not violate OriginalIntact")
+    res.cov["parts"]["nonvacuity_MC_ArenaSave_D43.cfg"] = "violated as expected"
+    exe = yv.driver("asan")
+    lines, plan = ["init"], []
+    src_of = dict(CORPUS)
+    probe = yv.hx(b"..MK1;..abbc12..xyzzwk a.c hello " * 3)
+    for name, img in images.items():
+        f = parse_image(img)
+        L = len(img)
+        # cumulative size after each write of yr_arena_save_stream: header, table, every non-empty buffer, every entry, terminator
+        ends, pos = [], 0
+        for step in [6, 12 * f["nb"]] + [z for z in f["sizes"] if z] + [8] * (f["nrel"] + 1):
+            pos += step; ends.append(pos)
+        assert pos == L, (pos, L)
+        ks = list(range(len(ends)))
+        if len(ks) > (40 if tier == "quick" else 400):
+            ks = sorted(set(ks[:14] + ks[-6:] + r.sample(ks, 20 if tier == "quick" else 380)))
+        lines += ["note " + name, "compiler 0"] + EXT + ["add 0 - " + yv.hx(src_of[name].encode()), "getrules 0 0", "cdestroy 0", "scanner 0 0", "data 1 " + probe,
+                                                        "scan 0 1 mem - - -"]
+        for k in ks:
+            limit = ends[k] - 1                      # the write that would end at ends[k] does not fit
+            lines += ["savestream 0 %s/fs.yarc %d" % (wd, limit), "audit 0", "scan 0 1 mem - - -"]
+            plan.append((name, k, limit, L))
+        lines += ["savestream 0 %s/fs.yarc %d" % (wd, L), "audit 0", "scan 0 1 mem - - -"]
+        plan.append((name, len(ends), L, L))
+        lines += ["sdestroy 0", "rdestroy 0"]
+    lines.append("finalize")
+    run = yv.run_script(exe, lines, wd, name="c08_failsave", timeout=1800)
+    # group events: reference scan per corpus entry, then (Save, RelocAudit, scan) triples
+    recs, owners = [], []
+    ref, cur_scan, state, pi = None, None, None, 0
+    save_ev = audit_ev = None
+    for e in run.events:
+        if e["e"] == "Note":
+            ref = None
+        elif e["e"] == "ScanCall":
+            cur_scan = []
+        elif e["e"] == "Cb" and cur_scan is not None and e["msg"] in ("match", "nomatch"):
+            cur_scan.append((e["rule"], e["msg"], json.dumps(e.get("strings", []), sort_keys=True)))
+        elif e["e"] == "Save":
+            save_ev = e
+        elif e["e"] == "RelocAudit":
+            audit_ev = e
+        elif e["e"] == "ScanRet":
+            obs = (e["ret"], tuple(cur_scan or []))
+            cur_scan = None
+            if ref is None:
+                ref = obs
+            elif save_ev is not None and audit_ev is not None and pi < len(plan):
+                name, k, limit, L = plan[pi]; pi += 1
+                recs.append({"kind": "savefail", "ret": save_ev["ret"], "limit": limit, "full": L, "same": obs == ref,
+                             "unregistered": audit_ev["unregistered"], "dangling": audit_ev["dangling"], "outside": audit_ev["outside"]})
+                owners.append((name, k, limit, L, save_ev["ret"], audit_ev))
+                res.count(1, ("failsave", name, k))
+                save_ev = audit_ev = None
+    if not run.complete:
+        what = plan[pi] if pi < len(plan) else "?"
+        res.violation("a failing save crashed the process or the next use of the rules (%s: write %s of the stream fails): %s" % (what[0] if what != "?" else "?", what[1] if what != "?" else "?", yv.crash_summary(run)),
+                      yv.save_replay("C08", "failsave_crash", {"case": str(what), "crash": yv.crash_summary(run), "script": run.script_path}))
+    judge_and_report(res, "C08", recs, owners, lambda o: {"corpus entry": o[0], "failing write": o[1], "stream limit": o[2], "image length": o[3], "save returned": o[4], "audit": o[5]}, wd, "c08_failsave")
+    res.cov["parts"]["failing_saves"] = len(recs)
+
+
 def c17(res, tier, seed):
     model_check(res, "MC_Arena.cfg", [("MC_Arena_D5.cfg", "TruncatedNeverLoads")])
     wd = yv.workdir("C17")
@@ -211,6 +285,7 @@ def c08(res, tier, seed):
             bufs = [hexre.plant_buffer(r, ast, hexre.SAFE, 60) for _ in range(5)]
             smetas.append(("re", ast, None, src))
         sgroups.append({"src": src, "bufs": bufs})
+    failing_saves(res, tier, wd, imgs[2], r)
     audit_recs, audit_owners = [], []
     for (cname, variant, au) in corpus_audits:
         audit_recs.append({"kind": "audit", "unregistered": au["unregistered"], "dangling": au["dangling"], "outside": au["outside"], "relocs": au["relocs"], "pointers": au["pointers"]})
